@@ -1278,11 +1278,17 @@ impl<'a, 'b> InternalDelphiLogicalLineParser<'a, 'b> {
         let paren_level = self.paren_level;
         let brack_level = self.brack_level;
         let generic_level = self.generic_level;
+        // Chevrons only have to pair up when it is generic arguments that are being skipped;
+        // inside parentheses or brackets a `<` can just as well be a comparison.
+        let is_generic_pair = matches!(
+            self.get_current_token_type(),
+            Some(TT::Op(OK::LessThan(_)))
+        );
 
         self.next_token();
         while (self.paren_level != paren_level
             || self.brack_level != brack_level
-            || self.generic_level != generic_level)
+            || (is_generic_pair && self.generic_level != generic_level))
             && self.get_current_token_type().is_some()
         {
             self.next_token();
